@@ -154,12 +154,16 @@ struct BlendRowMaskClip;
 
 fn blend_row_mask_clip<T: blend::Blend>(src: &[u32], mask: &[u8], clip: &[u8], dst: &mut [u32]) {
     for (((dst, src), mask), clip) in dst.iter_mut().zip(src).zip(mask).zip(clip) {
-        *dst = alpha_lerp(
-            *dst,
-            T::blend(*src, *dst),
-            *mask as u32,
-            *clip as u32
-        );
+        // alpha_lerp() tops out at a weight of 255/256, so full coverage inside
+        // the clip would not give the blended colour exactly
+        let alpha = muldiv255(*mask as u32, *clip as u32);
+        if alpha != 0 {
+            *dst = lerp(
+                *dst,
+                T::blend(*src, *dst),
+                alpha_to_alpha256(alpha),
+            );
+        }
     }
 }
 
